@@ -55,6 +55,14 @@ class _Return(Exception):
         self.value = value
 
 
+class _Break(Exception):
+    pass
+
+
+class _Continue(Exception):
+    pass
+
+
 class PyReader:
 
     def __init__(self, module: ast.Module, where: str = "", depth_limit: int = 6):
@@ -150,9 +158,24 @@ class PyReader:
                 it = self.ev(s.iter, env, fns)
                 if not isinstance(it, list):
                     self.fail(s.iter, "loop over a non-concrete sequence")
+                broke = False
                 for x in it:
                     self.assign(s.target, x, env, s)
-                    self.block(s.body, env, fns)
+                    try:
+                        self.block(s.body, env, fns)
+                    except _Break:
+                        broke = True
+                        break
+                    except _Continue:
+                        continue
+                if not broke and s.orelse:
+                    self.block(s.orelse, env, fns)
+            elif isinstance(s, ast.Break):
+                raise _Break()
+            elif isinstance(s, ast.Continue):
+                raise _Continue()
+            elif isinstance(s, ast.Pass):
+                continue
             elif isinstance(s, ast.Return):
                 raise _Return(self.ev(s.value, env, fns) if s.value is not None else None)
             elif isinstance(s, ast.Raise):
@@ -240,6 +263,9 @@ class PyReader:
             self.fail(n, "unary operator")
         if isinstance(n, ast.BinOp):
             l, r = self.ev(n.left, env, fns), self.ev(n.right, env, fns)
+            hb = self.hook_binop(n.op, l, r, n)
+            if hb is not NotImplemented:
+                return hb
             if isinstance(l, list) and isinstance(r, list) and isinstance(n.op, ast.Add):
                 return l + r
             if isinstance(l, list) and isinstance(r, int) and isinstance(n.op, ast.Mult):
@@ -263,8 +289,19 @@ class PyReader:
             if isinstance(o, (ast.Is, ast.IsNot)):
                 res = (l is r) if (l is None or r is None) else (l == r)
                 return res if isinstance(o, ast.Is) else not res
+            if isinstance(o, (ast.In, ast.NotIn)) and isinstance(r, (list, dict)):
+                res = l in r
+                return res if isinstance(o, ast.In) else not res
             if isinstance(o, (ast.Eq, ast.NotEq)):
                 if isinstance(l, T) or isinstance(r, T):
+                    # SymPy's == is structural, on automatically simplified expressions: decided on the normal forms
+                    from .alg import normalize
+                    try:
+                        if all(isinstance(x, (T, int)) and not isinstance(x, bool) for x in (l, r)):
+                            res = normalize(l).eq(normalize(r))
+                            return res if isinstance(o, ast.Eq) else not res
+                    except (AnalysisError, ZeroDivisionError):
+                        pass
                     self.fail(n, "comparison of symbolic values")
                 return (l == r) if isinstance(o, ast.Eq) else (l != r)
             if isinstance(l, int) and isinstance(r, int):
@@ -284,6 +321,8 @@ class PyReader:
             return all(vals) if isinstance(n.op, ast.And) else any(vals)
         if isinstance(n, ast.IfExp):
             t = self.ev(n.test, env, fns)
+            if t is None:
+                t = False  # SymPy's three-valued assumptions: an undetermined query is falsy
             if not isinstance(t, bool):
                 self.fail(n.test, "condition not decidable")
             return self.ev(n.body if t else n.orelse, env, fns)
@@ -350,6 +389,10 @@ class PyReader:
 
     def hook_attr(self, base, attr: str, n: ast.AST):
         """hook for attributes of rule-specific objects; NotImplemented = not known"""
+        return NotImplemented
+
+    def hook_binop(self, o: ast.operator, l, r, n: ast.AST):
+        """hook for arithmetic on rule-specific objects; NotImplemented = ordinary arithmetic"""
         return NotImplemented
 
     def hook_method(self, base, attr: str, args: list, kwargs: dict, n: ast.Call):
@@ -420,6 +463,18 @@ class PyReader:
                 e2[n.args[0].args.args[0].arg] = x
                 out.append(self.ev(n.args[0].body, e2, fns))
             return out
+        if name == "map" and len(n.args) == 2 and isinstance(n.args[0], ast.Name):
+            seq = self.ev(n.args[1], env, fns)
+            if not isinstance(seq, list):
+                self.fail(n, "map over a non-concrete sequence")
+            out = []
+            for x in seq:
+                e2 = dict(env)
+                e2["__map_arg__"] = x
+                call = ast.Call(func=n.args[0], args=[ast.Name(id="__map_arg__", ctx=ast.Load())], keywords=[])
+                ast.copy_location(call, n)
+                out.append(self.ev_call(call, e2, fns))
+            return out
         args = []
         for a in n.args:
             if isinstance(a, ast.Starred):
@@ -427,7 +482,7 @@ class PyReader:
             else:
                 args.append(self.ev(a, env, fns))
         kwargs = {k.arg: self.ev(k.value, env, fns) for k in n.keywords if k.arg}
-        if isinstance(n.func, ast.Attribute) and n.func.attr in ("subs", "items", "values", "keys", "get", "xreplace") or \
+        if isinstance(n.func, ast.Attribute) and n.func.attr in ("subs", "items", "values", "keys", "get", "pop", "setdefault", "xreplace") or \
                 (isinstance(n.func, ast.Attribute) and not isinstance(n.func.value, ast.Name)) or \
                 (isinstance(n.func, ast.Attribute) and isinstance(n.func.value, ast.Name) and n.func.value.id in env):
             base = None
@@ -445,6 +500,14 @@ class PyReader:
                         return list(base.keys())
                     if n.func.attr == "get" and args:
                         return base.get(args[0], args[1] if len(args) > 1 else None)
+                    if n.func.attr == "pop" and args:
+                        if args[0] in base:
+                            return base.pop(args[0])
+                        if len(args) > 1:
+                            return args[1]
+                        raise Raised("KeyError", getattr(n, "lineno", 0))
+                    if n.func.attr == "setdefault" and len(args) == 2:
+                        return base.setdefault(args[0], args[1])
                 if n.func.attr in ("subs", "xreplace") and isinstance(base, (T, int)) and not isinstance(base, bool):
                     if n.func.attr == "xreplace":
                         kwargs = dict(kwargs, simultaneous=True)
